@@ -7,9 +7,12 @@ CONSTANTS
   MaxCalls = 2
   Budget = 2
   AllowPop = FALSE
+  Cap = 0
+  AllowForce = FALSE
   SignalFixed = FALSE
   CloseBroadcasts = TRUE
   HelperLocked = TRUE
+  EvictKeepsItem = TRUE
 INVARIANTS NoStuckIter
 
 CHECK_DEADLOCK FALSE
